@@ -20,11 +20,13 @@ ap.add_argument("--tests", nargs="*", default=[])
 ap.add_argument("--src", default="/tmp/wt")
 ap.add_argument("--demo-timeout", type=int, default=300)
 ap.add_argument("--no-record", action="store_true")
+ap.add_argument("--prefix", default="")
+ap.add_argument("--round", type=int, default=1)
 a = ap.parse_args()
 
-diff = f"{a.src}/{a.prop}_mut{a.k}.diff"
-demo = f"{a.src}/{a.prop}_mut{a.k}_demo.py"
-summ = f"{a.src}/{a.prop}_summary.json"
+diff = f"{a.src}/{a.prefix}{a.prop}_mut{a.k}.diff"
+demo = f"{a.src}/{a.prefix}{a.prop}_mut{a.k}_demo.py"
+summ = f"{a.src}/{a.prefix}{a.prop}_summary.json"
 wt = tempfile.mkdtemp(prefix="seedconf_")
 os.rmdir(wt)
 res = {"property": a.prop, "k": int(a.k)}
@@ -99,11 +101,11 @@ if os.path.exists(summ):
 res["agent_summary"] = agent_meta
 print(json.dumps(res, indent=1))
 if res.get("confirmed") and not a.no_record:
-    d = f"/verif/seeded/{a.prop}-{a.k}"
+    d = f"/verif/seeded/{a.prop}-{a.k}" if a.round == 1 else f"/verif/seeded/{a.prop}-r{a.round}-{a.k}"
     os.makedirs(d, exist_ok=True)
     shutil.copy(diff, f"{d}/patch.diff")
     shutil.copy(demo, f"{d}/demo.py")
-    meta = {"breaks_property": a.prop, "what": agent_meta.get("what", ""), "needs_to_manifest": agent_meta.get("needs", ""),
+    meta = {"breaks_property": a.prop, "round": a.round, "what": agent_meta.get("what", ""), "needs_to_manifest": agent_meta.get("needs", ""),
             "origin": "independent sub-agent given only the property text and a scratch worktree",
             "confirmed_by": {"demo_with_change_rc": res["demo_with_change_rc"], "demo_without_change_rc": res["demo_without_change_rc"],
                              "tests_run": res.get("tests", []), "tests_rc": res.get("tests_rc"), "tests_tail": res.get("tests_tail")},
